@@ -2,13 +2,15 @@ import Driver.ParseStream
 /-
   line protocol, stream `resolve` (front end: several modules through `tryResolveAll`)
 
-    resolve mods  <hex1>,<hex2>,…          → ok <dump1> <dump2> … | err <class> | abort
+    resolve mods  <hex1>,<hex2>,…          → ok <dump1> <dump2> … | err <class>
     resolve subst <mods A> <mods B> [...]  → <answer for A> || <answer for B>
     resolve perm  <hex1>,<hex2>,… [...]    → the answer for every load order (dumps put back into
                                               request order), joined by ` || `
 
-  `abort` = the import chase of the model ran out of fuel = the real resolver recurses until the
-  stack overflows.  Texts are tokenized as in the stream `parse`.
+  The resolver always answers (`C12.chase_total`, `C14.resolver_total`): a cyclic import of an
+  undefined name is `err resolve-reference`.  An `abort` of the real resolver (stack overflow, as
+  before the repair of the import chase) has no counterpart here and is a disagreement.
+  Texts are tokenized as in the stream `parse`.
 -/
 namespace Driver.ResolveStream
 open Asn1Verif Asn1Verif.Front.Syn Asn1Verif.Text Driver.ParseStream
@@ -34,7 +36,6 @@ def resolveInOrder (texts : List String) (order : List Nat) : String :=
   | .error s => s
   | .ok ms =>
     match tryResolveAll ms with
-    | .error .fuel => "abort"
     | .error e => "err " ++ errStr e
     | .ok rs =>
       let dumps := (List.range texts.length).map fun i =>
